@@ -37,6 +37,17 @@ Theorem C08_input_by_class : forall classes ns names acc d k tc found,
 Proof. exact resolve_one_by_class. Qed.
 Print Assumptions C08_input_by_class.
 
+(* a reference by class is exact: when the task of that class is not in the chain, a task of another class whose name
+   matches the short form (found) does not stand in - the optional input is absent, the required one is missing *)
+Theorem C08_input_by_class_absent : forall classes ns names acc d k tc found,
+  i_ref d = inr k -> cls classes k = inl tc -> dhas (prefixed ns (c_slug tc)) acc = false ->
+  find_task_full_name false (prefixed ns (c_slug tc)) names = inl found ->
+  existsb (str_eqb (prefixed ns (c_slug tc))) names = false ->
+  resolve_one classes ns names acc d =
+  if i_required d then inr EMissingInput else inl (dset (prefixed ns (c_slug tc)) (inr (i_default d)) acc).
+Proof. exact resolve_one_by_class_absent. Qed.
+Print Assumptions C08_input_by_class_absent.
+
 (* an absent optional input is bound to its default (no edge); an absent required one is an error *)
 Theorem C08_absent_input : forall classes ns names acc d n0 e,
   (match i_ref d with inl s => inl s | inr k => match cls classes k with inl c => inl (c_slug c) | inr e => inr e end end) = inl n0 ->
